@@ -34,7 +34,7 @@ const prop = "C13"
 
 func TestMain(m *testing.M) {
 	vmodel.CallTimeout = 15 * time.Minute // the vwatch watchdog (with its parked-goroutine analysis) fires first
-	vcompose.LeafTypes = []string{"verif", "verif", "diskpacked"} // fault-injectable leaves (diskpacked: its index is a harness KV)
+	vcompose.LeafTypes = []string{"verif", "verif", "diskpacked", "filesvfs"} // fault-injectable leaves (diskpacked: its index is a harness KV)
 	evid.Main(m, prop, "fault_enumeration",
 		"a backend tree (depth<=3, leaves = harness 'verif' stores and diskpacked with a harness KV index; every KV of blobpacked/encrypt/overlay/namespace is a harness KV) and an operation list (receive/fetch/stat batches of 3-60 refs/enumerate/remove) are generated; a dry run counts the lower-layer calls N; then the same history is re-run with a transient error injected at the k-th lower-layer call (every k in thorough, drawn k in quick; plain failure or performed-but-error), or with a burst of several failing calls; "+
 			"afterwards faults stop, healthy operations and the full read battery run, then the backend's own recovery (diskpacked Reindex, blobpacked full recovery, encrypt meta re-scan) and the battery again; the four package-level stat gates must read 0. A separate gated-fault test makes the failing stat worker return while the dispatch loop is parked on the gate. "+
@@ -65,6 +65,9 @@ func genOps(t *rapid.T, pool []vgen.Blob, caps vcompose.Caps, n int) []op {
 	var ops []op
 	for i := 0; i < n; i++ {
 		kinds := []string{"receive", "receive", "fetch", "stat", "enumerate"}
+		if !caps.Receive {
+			kinds = []string{"fetch", "stat", "enumerate"}
+		}
 		if caps.Remove {
 			kinds = append(kinds, "remove")
 		}
@@ -90,6 +93,7 @@ func genOps(t *rapid.T, pool []vgen.Blob, caps vcompose.Caps, n int) []op {
 }
 
 type caseDef struct {
+	Preload [][]int // per preload leaf (overlay lower / union subsets): pool indexes stored there before the history
 	Tree  *vcompose.Node
 	Pool  []vgen.Blob
 	Ops   []op
@@ -105,8 +109,17 @@ type fault struct {
 	Beh  vstore.Behaviour
 }
 
+// stableKeys are the keys that are the same in every execution of a history (the pool's refs, cursors...).
+// Keys derived from randomised data (encrypt's ciphertext and meta blob refs, temp names) are replaced by
+// "*" so that the dry run's addresses still exist in the faulted re-run.
+var stableKeys = map[string]bool{}
+
 func addrOf(e *vstore.Event, counts map[string]int) string {
-	k := e.Layer + " " + e.Op + " " + e.Key
+	key := e.Key
+	if _, isRef := blob.Parse(key); isRef && !stableKeys[key] {
+		key = "*"
+	}
+	k := e.Layer + " " + e.Op + " " + key
 	counts[k]++
 	return fmt.Sprintf("%s #%d", k, counts[k])
 }
@@ -117,6 +130,7 @@ type result struct {
 	violation  error
 	inconcl    string
 	hitInside  bool // a fault was delivered not as the first lower call of an op
+	retried    bool // a failed mutation was retried after the faults stopped
 	hits       int
 	knownID    string
 }
@@ -179,11 +193,26 @@ func run(cd *caseDef, faults []fault, recoverAfter bool) (res result) {
 	}
 	defer func() { b.Close() }()
 	model := vmodel.New()
+	stableKeys = map[string]bool{vgen.RefOf("sha224", []byte("never-stored")).String(): true}
 	for _, pb := range cd.Pool {
 		model.Know(pb.Ref, pb.Data)
+		stableKeys[pb.Ref.String()] = true
 	}
 	everMaybe := map[blob.Ref]bool{}
 	partialRemoved = map[string]bool{}
+	for li, leaf := range b.Preload {
+		if li >= len(cd.Preload) {
+			break
+		}
+		for _, ix := range cd.Preload[li] {
+			pb := cd.Pool[ix]
+			if err := b.PreloadBlob(leaf, pb.Ref, pb.Data); err != nil {
+				res.inconcl = "harness: preload: " + err.Error()
+				return
+			}
+			model.SetPresent(pb.Ref, pb.Data)
+		}
+	}
 	base := env.Seq() // construction calls (e.g. encrypt's start-up scan) are not part of the fault domain
 	fm := map[string]vstore.Behaviour{}
 	for _, f := range faults {
@@ -217,6 +246,7 @@ func run(cd *caseDef, faults []fault, recoverAfter bool) (res result) {
 		return b
 	}
 	var trace []string
+	var lastOpErr error
 	fail := func(format string, a ...any) {
 		res.violation = fmt.Errorf(format+"\nconfiguration: %s\nfaults (layer op key #occurrence): %v\ntrace:\n  %s", append(a, cd.Desc, faults, strings.Join(trace, "\n  "))...)
 	}
@@ -280,6 +310,7 @@ func run(cd *caseDef, faults []fault, recoverAfter bool) (res result) {
 			return nil
 		})
 		hit := env.FaultsHit() > hit0
+		lastOpErr = opErr
 		trace = append(trace, fmt.Sprintf("%s -> err=%v mismatch=%v faultDelivered=%v lowerCalls=%d..%d", o, opErr, mm, hit, seq0-base+1, env.Seq()-base))
 		if te, ok := werr.(*timeoutErr); ok {
 			if !te.res.Parked {
@@ -318,9 +349,15 @@ func run(cd *caseDef, faults []fault, recoverAfter bool) (res result) {
 		}
 		return true
 	}
+	var retries []op
 	for i, o := range cd.Ops {
+		h0 := env.FaultsHit()
 		if !doOp(i, o, false) {
 			return
+		}
+		// a client retries a mutation that failed transiently: remember it for the healthy phase
+		if (o.Kind == "receive" || o.Kind == "remove") && env.FaultsHit() > h0 && lastOpErr != nil {
+			retries = append(retries, o)
 		}
 	}
 	res.calls = env.Seq() - base
@@ -332,7 +369,15 @@ func run(cd *caseDef, faults []fault, recoverAfter bool) (res result) {
 	if faults == nil && !recoverAfter {
 		return
 	}
-	// healthy phase
+	// healthy phase: first the retries of what failed, then the generated healthy operations
+	for i, o := range retries {
+		if !doOp(500+i, o, true) {
+			return
+		}
+	}
+	if len(retries) > 0 {
+		res.retried = true
+	}
 	for i, o := range cd.Heal {
 		if !doOp(1000+i, o, true) {
 			return
@@ -434,15 +479,23 @@ func knownSig(cd *caseDef, faults []fault, o op, m *vmodel.Mismatch, healthy boo
 func genCase(t *rapid.T) *caseDef {
 	root := ""
 	if rapid.IntRange(0, 9).Draw(t, "forceRoot") < 7 {
-		root = rapid.SampledFrom([]string{"diskpacked", "blobpacked", "encrypt", "replica", "shard", "cond", "overlay", "namespace", "proxycache", "verif"}).Draw(t, "root")
+		root = rapid.SampledFrom([]string{"filesvfs", "diskpacked", "blobpacked", "encrypt", "replica", "shard", "cond", "overlay", "namespace", "proxycache", "verif", "union"}).Draw(t, "root")
 	}
 	tree := vcompose.GenTree(t, 3, root)
-	for tree.Type == "union" { // read-only: nothing to fail a mutation on; covered through reads of other trees
-		tree = vcompose.GenTree(t, 3, "replica")
-	}
 	pool := vgen.GenPool(t, 4, 10, false)
 	caps := treeCaps(tree)
 	cd := &caseDef{Tree: tree, Pool: pool, Desc: tree.String()}
+	if caps.Preloaded {
+		for li := 0; li < 3; li++ { // at most 3 preload leaves (union subsets); overlay has one
+			var ixs []int
+			for i := range pool {
+				if rapid.IntRange(0, 2).Draw(t, "preload") == 0 {
+					ixs = append(ixs, i)
+				}
+			}
+			cd.Preload = append(cd.Preload, ixs)
+		}
+	}
 	cd.Ops = genOps(t, pool, caps, rapid.IntRange(3, 10).Draw(t, "nOps"))
 	cd.Heal = genOps(t, pool, caps, rapid.IntRange(3, 5).Draw(t, "nHeal"))
 	return cd
@@ -509,6 +562,9 @@ func TestSingleFaults(t *testing.T) {
 				nt := res.hitInside && len(cd.Heal) >= 3
 				if res.hits > 0 {
 					evid.R.Label("single/fault-delivered")
+				}
+				if res.retried {
+					evid.R.Label("single/failed-mutation-retried")
 				}
 				if nt {
 					evid.R.Label("single/fault-inside-multistep-op")
